@@ -35,6 +35,9 @@ pub struct StatusPlan {
     /// virtual time after which the child ends by itself
     pub child_life_ns: u64,
     pub detached: bool,
+    /// the child is started in a process group of its own
+    #[serde(default)]
+    pub setpgid: bool,
 }
 
 const DAY: u64 = 86_400 * 1_000_000_000;
@@ -162,6 +165,7 @@ pub fn generate(prop: &str, rng: &mut Rng, plan: &mut Plan, index: u64) {
             plan.knobs.faults.stall_pm = *rng.pick(&[5u32, 30, 100]);
         }
     }
+    sp.setpgid = rng.chance(1, 4);
     // a signal handler of the application runs while the parent is blocked in wait()
     if prop != "C11" && rng.chance(1, 6) {
         plan.knobs.faults.eintr = Some((1 + rng.below(3) as u32, 1 + rng.below(3) as u32, 4));
@@ -258,7 +262,7 @@ fn class(s: ExitStatus) -> &'static str {
 
 pub fn run(plan: &Plan, sp: &StatusPlan) -> FamOut {
     let cost = plan.knobs.cost_ns;
-    let cfg = PopenConfig { detached: sp.detached, ..Default::default() };
+    let cfg = PopenConfig { detached: sp.detached, setpgid: sp.setpgid, ..Default::default() };
     let r = lib("Popen::create", || Popen::create(&["/bin/child"], cfg));
     let mut p = match r {
         Ok(Ok(p)) => p,
@@ -364,7 +368,8 @@ pub fn run(plan: &Plan, sp: &StatusPlan) -> FamOut {
                                     // the child must really not have been a zombie for long
                                     if let Some(c) = st.child() {
                                         if let (Some(ex), None) = (c.exit_at, c.reaped_by) {
-                                            if t_ret > ex + 100_000_000 + slack && ex >= t_call {
+                                            // (also when it had ended before the call: a dead child's status is never "still running" for long)
+                                            if t_ret > ex + 100_000_000 + slack {
                                                 violate("wt_exit_late", "wt_exit_late/returned=none".into(), format!("op#{}: the child exited at {}, wait_timeout still said 'running' at {}", i, ex, t_ret));
                                             }
                                         }
